@@ -50,6 +50,8 @@ class SimThread:
         self.no_preempt = 0  # >0: LINE events do not yield (harness critical section)
         self.wait_for: list["SimThread"] = []  # not runnable until all of these are done
         self.blocked: Optional[Callable[[], bool]] = None  # parked until this predicate holds (block_until)
+        self.in_sched = False  # inside the scheduler: traced code run from a GC finaliser must not yield again
+        self.keep_handle = False  # False: the real Thread object is released when the thread ends
         self.real = threading.Thread(target=self._main, name=f"sim-{idx}-{name}", daemon=True)
         self.ctx: dict = {}  # property-specific per-thread context
 
@@ -64,6 +66,9 @@ class SimThread:
             self.exc = e
         finally:
             self.done = True
+            self.in_sched = True
+            if not self.keep_handle:
+                self.real = None  # like a program that does not keep its Thread objects around
             self.sched._finished(self)
 
 
@@ -304,8 +309,15 @@ class Scheduler:
         me = current()
         if self.fatal is not None and me is not None:
             raise self.fatal
-        if me is None or me is not self.cur or me.done or me.no_preempt:
+        if me is None or me is not self.cur or me.done or me.no_preempt or me.in_sched:
             return
+        me.in_sched = True
+        try:
+            self._yield(me, kind, detail)
+        finally:
+            me.in_sched = False
+
+    def _yield(self, me: SimThread, kind: str, detail: object) -> None:
         if self.step >= self.max_steps:
             self.fatal = StepCap(f"step cap {self.max_steps} exceeded")
             raise self.fatal
